@@ -552,6 +552,149 @@ def build():
                                          "functions reachable from Document.save (name-based over-approximation of the call graph)"), len(reach)
     plan.ground.append(("save-assigns-no-grid-state", save_frame))
 
+
+    # ------------------------------------------------------------------ add_row / add_column with a default: exactly the new cells are written
+    # The grid effects are proved above (default None). Here the grid is abstracted away completely: only the ranges the fill loops run over
+    # and the calls of Table.write matter. W[r][c] records a call write(r, c, default).
+    from pyvc.sym import Custom, Bool as BoolS
+    AAb2 = z3.ArraySort(Int, z3.ArraySort(Int, BoolS))
+
+    class AnyGrid(Custom):
+        """_data with every operation allowed and ignored"""
+        def __init__(self, h):
+            self.h = h
+
+        def length(self, ex):
+            return z3.Int(fresh_name("some_len"))
+
+        def getitem(self, ex, idx, line):
+            return AnyGrid(self.h) if not getattr(self, "row_level", False) else PObj("AnyCell", {})
+
+        def setitem(self, ex, idx, v, line):
+            return None
+
+        def setslice(self, ex, lo, hi, v, line):
+            return None
+
+        def method(self, ex, name, args, kwargs, line):
+            if name in ("append", "extend", "insert"):
+                return None
+            raise Unsupported(f"grid.{name}")
+
+    class AnyRow(AnyGrid):
+        row_level = True
+
+    class AnyTop(AnyGrid):
+        def getitem(self, ex, idx, line):
+            return AnyRow(self.h)
+
+    def fill_entry(axis):
+        def entry(ex):
+            nr, nc = ex.fresh("int", "num_rows0"), ex.fresh("int", "num_cols0")
+            n, st = ex.fresh("int", "count"), ex.fresh("optint", "start")
+            size = nr if axis == "row" else nc
+            ex.assume(z3.And(nr.t >= 1, nc.t >= 1, n.t >= 0, z3.Or(st.isnone, z3.And(st.val.t >= 0, st.val.t < size.t))))
+            holder = PObj("Ghost", {"W": z3.K(Int, z3.K(Int, z3.BoolVal(False)))})
+            t = PObj("TableD", {"_data": AnyTop(holder), "num_rows": nr, "num_cols": nc, "_model": PObj("_NumbersModel", {}), "_table_id": ex.fresh("int", "tid"),
+                                "g": holder})
+            env = {"self": t, "default": ex.fresh("int", "default_value"), "g": holder, "g_nr0": nr, "g_nc0": nc, "g_count": n, "g_start": st}
+            env["num_rows" if axis == "row" else "num_cols"] = n
+            env["start_row" if axis == "row" else "start_col"] = st
+            return env
+        return entry
+
+    def m_write(ex, o, a, k, l):
+        h = o.fields["g"]
+        ex.oblige(f"fill-writes-the-default@L{l}", T(a[2]) == T(ex.entry_env["default"]), "ghost", l)
+        h.fields["W"] = z3.Store(h.fields["W"], T(a[0]), z3.Store(z3.Select(h.fields["W"], T(a[0])), T(a[1]), z3.BoolVal(True)))
+    ctx.method_models = getattr(ctx, "method_models", {})
+    ctx.method_models[("TableD", "write")] = m_write
+    ctx.method_models[("_NumbersModel", "number_of_rows")] = lambda ex, o, a, k, l: None
+    ctx.method_models[("_NumbersModel", "number_of_columns")] = lambda ex, o, a, k, l: None
+
+    def Wat(env, r, c):
+        return z3.Select(z3.Select(env["g"].fields["W"], r), c)
+
+    def fill_block(env, axis):
+        n = env["g_count"].t
+        st = env["g_start"]
+        if axis == "row":
+            r0 = z3.If(st.isnone, env["g_nr0"].t, st.val.t)
+            return r0, r0 + n, z3.IntVal(0), env["g_nc0"].t
+        c0 = z3.If(st.isnone, env["g_nc0"].t, st.val.t)
+        return z3.IntVal(0), env["g_nr0"].t, c0, c0 + n
+
+    def W_is(env, axis, rows_done=None, row_cur=None, cols_done=None):
+        """W marks exactly the block cells of the rows before rows_done, plus the first cols_done block cells of row_cur"""
+        r0, r1, c0, c1 = fill_block(env, axis)
+        r, c = z3.Int(fresh_name("wr")), z3.Int(fresh_name("wc"))
+        inblock_cols = z3.And(c0 <= c, c < c1)
+        if rows_done is None:
+            done = z3.And(r0 <= r, r < r1, inblock_cols)
+        else:
+            done = z3.And(r0 <= r, r < rows_done, inblock_cols)
+            if row_cur is not None:
+                done = z3.Or(done, z3.And(r == row_cur, c0 <= c, c < cols_done))
+        return z3.ForAll([r, c], Wat(env, r, c) == done)
+
+    def hv_W(ex, env):
+        env["g"].fields["W"] = z3.Const(fresh_name("W_h"), AAb2)
+
+    def dims(env, axis):
+        t = env["self"].fields
+        if axis == "row":
+            return z3.And(T(t["num_rows"]) == env["g_nr0"].t + env["g_count"].t, T(t["num_cols"]) == env["g_nc0"].t)
+        return z3.And(T(t["num_rows"]) == env["g_nr0"].t, T(t["num_cols"]) == env["g_nc0"].t + env["g_count"].t)
+
+    def start_is(env, axis):
+        st = env["g_start"]
+        v = env["start_row" if axis == "row" else "start_col"]
+        size0 = env["g_nr0"].t if axis == "row" else env["g_nc0"].t
+        return T(v) == z3.If(st.isnone, size0, st.val.t)
+
+    true_inv = lambda axis: (lambda ex, env: z3.And(dims(env, axis), start_is(env, axis), W_is(env, axis, rows_done=fill_block(env, axis)[0])))
+    # add_row: loops 4 (rows of the block) and 5 (columns)
+    def ar_fill_outer(ex, env):
+        r0, r1, c0, c1 = fill_block(env, "row")
+        return z3.And(dims(env, "row"), start_is(env, "row"), W_is(env, "row", rows_done=r0 + T(env["_i"])))
+
+    def ar_fill_inner(ex, env):
+        return z3.And(dims(env, "row"), start_is(env, "row"), T(env["row"]) >= fill_block(env, "row")[0], T(env["row"]) < fill_block(env, "row")[1],
+                      W_is(env, "row", rows_done=T(env["row"]), row_cur=T(env["row"]), cols_done=T(env["_j"])))
+
+    def fill_post(axis):
+        def post(ex, env):
+            return z3.And(dims(env, axis), W_is(env, axis))
+        post.__name__ = (f"add_{'row' if axis == 'row' else 'column'} with a default (any value, falsy ones included): Table.write(r, c, default) is called for "
+                         "exactly the cells of the inserted block, and for no other cell")
+        return post
+    dummy = {"[Cell._empty_cell(self._table_id, row, col, self._model) for col in range(self.num_cols)]": lambda ex, env: PObj("AnyCells", {}),
+             "[Cell._empty_cell(self._table_id, row, start_col + col, self._model) for col in range(num_cols)]": lambda ex, env: PObj("AnyCells", {}),
+             "len(self._data[row])": lambda ex, env: env["self"].fields["num_cols"]}
+    plan.target(Contract(
+        "document:Table.add_row", label="default-fill", entry=fill_entry("row"), ensures=[fill_post("row")], safety="fork",
+        opaque=dummy, local_views={"rows": lambda ex, env: AnyTop(None)},
+        loops={1: LoopSpec([true_inv("row")], index="_a"), 2: LoopSpec([true_inv("row")], index="_b"), 3: LoopSpec([true_inv("row")], index="_c"),
+               4: LoopSpec([ar_fill_outer], index="_i", havoc=[hv_W]), 5: LoopSpec([ar_fill_inner], index="_j", havoc=[hv_W])},
+        search=lambda plan_, c: {"custom": "search_edit", "native_module": plan_.native_module, "op": "add_row"}))
+
+    # add_column: loop 1 (rows), 2 (renumber), 3 (fill columns of the block in this row)
+    def ac_fill_outer(ex, env):
+        return z3.And(dims(env, "col"), start_is(env, "col"), W_is(env, "col", rows_done=T(env["_i"])))
+
+    def ac_fill_mid(ex, env):
+        return z3.And(dims(env, "col"), start_is(env, "col"), T(env["row"]) >= 0, T(env["row"]) < env["g_nr0"].t, W_is(env, "col", rows_done=T(env["row"])))
+
+    def ac_fill_inner(ex, env):
+        c0 = fill_block(env, "col")[2]
+        return z3.And(dims(env, "col"), start_is(env, "col"), T(env["row"]) >= 0, T(env["row"]) < env["g_nr0"].t,
+                      W_is(env, "col", rows_done=T(env["row"]), row_cur=T(env["row"]), cols_done=c0 + T(env["_j"])))
+    plan.target(Contract(
+        "document:Table.add_column", label="default-fill", entry=fill_entry("col"), ensures=[fill_post("col")], safety="fork",
+        opaque=dummy,
+        loops={1: LoopSpec([ac_fill_outer], index="_i", havoc=[hv_W]), 2: LoopSpec([ac_fill_mid], index="_b"), 3: LoopSpec([ac_fill_inner], index="_j", havoc=[hv_W])},
+        search=lambda plan_, c: {"custom": "search_edit", "native_module": plan_.native_module, "op": "add_column"}))
+
     plan.bounded.append(BoundedStandIn(
         "edit-histories", "c03_histories.py", ["--max-len", "2", "--random", "40", "--small"],
         thorough_args=["--max-len", "2", "--random", "400", "--random-len", "30"],
